@@ -39,6 +39,9 @@ func init() {
 			{ID: "R06q", Floor: 2, Doc: "the header a session finalizes is the constructor's NewHeader(0) plus the paddings the caller asked for, nothing adopted from the file (= R05b)", Run: ruleR05b},
 			{ID: "R06r", Floor: 2, Doc: "in CARv2 mode a finalize reports success only as the result of store.Finalize (= R05l)", Run: ruleR05l},
 			{ID: "R06s", Floor: 1, Doc: "the library removes, renames or truncates no file by name (os.Remove, os.RemoveAll, os.Rename, os.Truncate): a file that cannot be resumed is refused and left as it is", Run: ruleR06s},
+			{ID: "R06t", Floor: 1, Doc: "every block of an acknowledged batch is in the file: a skipped block does not end PutMany (= R04u)", Run: ruleR04u},
+			{ID: "R06u", Floor: 1, Doc: "the payload size Finalize records is read under the lock: an acknowledged put is never behind DataSize (= R11x)", Run: ruleR11x},
+			{ID: "R06w", Floor: 2, Doc: "a reopened session resumes in the mode it was written in: every argument of store.Resume plays at the call site the role it plays inside (= R12e)", Run: ruleR12e},
 			{ID: "R06h", Floor: 2, Doc: "who may write the v2 header slot of a read-write session's file: store.Finalize writes the final header (after the index, R06b); everywhere else in the writing packages only the all-zero header may be written (a non-final, non-zero header on disk makes a later torn Finalize header look complete to Resume)", Run: ruleR06h},
 			{ID: "R06g", Floor: 1, Doc: "the file is truncated by the header on file only when that header is complete: IndexOffset (the last field Finalize writes) >= DataOffset + DataSize", Run: ruleR06g},
 			{ID: "R06f", Floor: 1, Doc: "every section already in the file is re-indexed on resume (= R12c): acknowledged blocks stay retrievable", Run: ruleR12c},
@@ -70,6 +73,9 @@ func init() {
 			{ID: "R12o", Floor: 1, Doc: "Resume judges sections by their framing only: no hashing of block contents is reachable from it (directly or through functions the pinned tree does not have) — Put never verified what it stored, so a verifying resume refuses the writer's own files", Run: ruleR12o},
 			{ID: "R12p", Floor: 1, Doc: "OpenReadableWritable never starts a file over: it does not call init, and every success return is behind store.Resume having accepted the file (version, roots and padding are checked for every non-fresh file, however short)", Run: ruleR12p},
 			{ID: "R12q", Floor: 7, Doc: "Resume starts its rescan where the header on file ends: HeaderSize is the size of the encoding (= R01c)", Run: ruleR01c},
+			{ID: "R12r", Floor: 1, Doc: "a session has no in-memory state that a resumed session cannot rebuild from the file: no new written field on the stores (= R08s)", Run: ruleR08s},
+			{ID: "R12s", Floor: 1, Doc: "two headers match only when they list the same number of roots: every non-false answer of CarHeader.Matches is behind len(h.Roots) == len(other.Roots)", Run: ruleR12s},
+			{ID: "R12t", Floor: 1, Doc: "a file that is not a resumable archive is refused untouched: no errors.Is(err, io.EOF) decides how to open it (= R02r)", Run: ruleR02r},
 		},
 	})
 	register(PropertyDef{
@@ -659,6 +665,42 @@ func ruleR12b(c *Ctx, r *Report) {
 		}
 	}
 	bad := ""
+	if len(eq1) == 0 && len(eq2) == 0 && len(okRets) > 0 {
+		// table form: `version != expected[writeAsV1]` with an immutable table {true: 1, false: 2}
+		isTab := func(v ssa.Value) bool {
+			lk, ok := canon(v).(*ssa.Lookup)
+			if !ok || canon(lk.Index) != ssa.Value(v1p) {
+				return false
+			}
+			m := immutableMapEntries(c, lk.X)
+			return len(m) == 2 && m["true"] == "1" && m["false"] == "2"
+		}
+		same := cmpEdges(fn, isVer, isTab, "eq")
+		if len(same) > 0 {
+			errOK := condEdges(fn, errNilCond(errOfCall(rv[0]), true))
+			reachOK := func(m map[*ssa.BasicBlock]bool) bool {
+				for _, ret := range okRets {
+					if m[ret.Block()] {
+						return true
+					}
+				}
+				return false
+			}
+			switch {
+			case reachOK(reach(fn, nil, edgeSet(same))):
+				bad = "success is reachable although the version is not the one the table gives for the mode"
+			case len(errOK) == 0 || reachOK(reach(fn, nil, edgeSet(errOK))):
+				bad = "success reachable although ReadVersion failed"
+			}
+			for _, e := range same {
+				if !reachOK(reachFromEdge(fn, e, nil)) {
+					bad = "the expected version is rejected"
+				}
+			}
+			r.Check(bad == "", key, c.Pos(fn.Pos()), "success exactly when version == {v1 mode: 1, v2 mode: 2}[mode] (immutable table)", bad)
+			return
+		}
+	}
 	if len(eq1) == 0 || len(eq2) == 0 || len(okRets) == 0 {
 		bad = "version is not compared with both 1 and 2"
 	}
@@ -1306,6 +1348,7 @@ func ruleR12g(c *Ctx, r *Report) {
 			continue
 		}
 		okEdges := condEdges(fn, errNilCond(errOfCall(writes[0]), true))
+		okEdges = pruneMergedTests(okEdges, errOfCall(writes[0]))
 		if len(okEdges) == 0 {
 			r.Undec(key, c.Pos(writes[0].Pos()), "the success outcome of LdWrite is not tested")
 			continue
@@ -1988,4 +2031,43 @@ func ruleR12l(c *Ctx, r *Report) {
 		}
 		r.Check(bad == "", key, c.Pos(fn.Pos()), "header roots = the caller's roots", bad)
 	}
+}
+
+// pruneMergedTests drops the "err == nil" edge of a test of a merged value (the result cell of an
+// inlined helper, which also carries other errors and nil) when every input that carries the
+// call's own error is known non-nil where it enters the merge (it comes from the `err != nil`
+// branch of the call's own test): on those paths the call failed, on the others the test says
+// nothing about this call.
+func pruneMergedTests(all []Edge, isErr func(ssa.Value) bool) []Edge {
+	var out []Edge
+	for _, e := range all {
+		keep := true
+		if iff, ok := e.From.Instrs[len(e.From.Instrs)-1].(*ssa.If); ok {
+			base, _ := condNorm(iff.Cond)
+			if b, ok := base.(*ssa.BinOp); ok {
+				v := b.X
+				if isNilConst(b.X) {
+					v = b.Y
+				}
+				if ph, ok := v.(*ssa.Phi); ok {
+					n, failed := 0, 0
+					for i, in := range ph.Edges {
+						if isErr(in) {
+							n++
+							if nilness(in, ph.Block().Preds[i]) == 2 {
+								failed++
+							}
+						}
+					}
+					if n > 0 && n == failed && n < len(ph.Edges) {
+						keep = false
+					}
+				}
+			}
+		}
+		if keep {
+			out = append(out, e)
+		}
+	}
+	return out
 }
